@@ -20,6 +20,9 @@ type Metadata struct {
 	Meta    map[string]string
 }
 
+// metaPathMaxKeyLen is the longest flattened key kept in a metadata file name.
+const metaPathMaxKeyLen = 200
+
 type metaPath struct {
 	bucket string
 	object string
@@ -61,6 +64,14 @@ func (ms *metaStore) metaPath(bucket string, object string) metaPath {
 	h.Write([]byte(object))
 	object = strings.Replace(object, "/", "_", -1)
 	object = strings.Replace(object, "\\", "_", -1)
+
+	// The flattened key is only there for humans, the hash identifies the
+	// key. Keep the file name within the length of a path component (255
+	// bytes on most file systems), otherwise no key longer than 222 bytes
+	// can be stored:
+	if len(object) > metaPathMaxKeyLen {
+		object = object[:metaPathMaxKeyLen]
+	}
 
 	return metaPath{bucket, object + "-" + hex.EncodeToString(h.Sum(nil))}
 }
